@@ -147,7 +147,10 @@ def unconditional_errors(ctx):
     for f in mod.all_functions:
         if f.cls is None or not f.cls.name.endswith("Phase"):
             continue
-        for st in f.node.body:
+        for i_, st in enumerate(f.node.body):
+            # written with guard clauses (`if ok: ...; return` before the error) the statement is not reached on every call
+            if any(isinstance(x, (ast.Return, ast.Raise)) for prev in f.node.body[:i_] for x in ast.walk(prev)):
+                break
             if isinstance(st, ast.Expr) and isinstance(st.value, ast.Call) and norm(st.value.func) == "self.parser.parseError":
                 code = ce_code(ctx, st.value, mod)
                 r.check("R16.8", f.qual in UNCONDITIONAL_ERROR_HANDLERS, "always-an-error::%s" % f.qual, "html5parser.py:%d" % st.lineno,
